@@ -11,21 +11,26 @@ import (
 
 // NDWatermarkedScript builds a script of exactly L messages for one join input: each message is
 // a record (symbolic Int|NULL key, concrete payload, event time strictly after the source's
-// current watermark: w+1 .. w+TCH seconds) or a watermark advancing by one second. Watermarks
+// current watermark: w+1 .. w+TCH seconds) or a watermark advancing by 1..WJ seconds (so that one input can leapfrog the other). Watermarks
 // are monotone and no record is late, by construction.
-func NDWatermarkedScript(name string, L, tch, payloadBase int) []Msg {
+func NDWatermarkedScript(name string, L, tch, wj, payloadBase int) []Msg {
 	var out []Msg
 	w := int64(0)
 	for i := 0; i < L; i++ {
 		if zzverif.Choice(fmt.Sprintf("%s.m%d.kind", name, i), 2) == 0 {
 			t := w + 1 + int64(zzverif.Choice(fmt.Sprintf("%s.m%d.dt", name, i), tch))
-			key := NDCell(fmt.Sprintf("%s.m%d.key", name, i))
+			var key octosql.Value
+			if zzverif.Param("NULLKEYS") == 0 {
+				key = octosql.NewInt(zzverif.Int64(fmt.Sprintf("%s.m%d.key.int", name, i))) // Int keys only
+			} else {
+				key = NDCell(fmt.Sprintf("%s.m%d.key", name, i))
+			}
 			out = append(out, Msg{Kind: MsgRecord, Rec: execution.Record{
 				Values:    []octosql.Value{key, octosql.NewInt(int64(payloadBase + i))},
 				EventTime: time.Unix(t, 0),
 			}})
 		} else {
-			w++
+			w += 1 + int64(zzverif.Choice(fmt.Sprintf("%s.m%d.dw", name, i), wj))
 			out = append(out, Msg{Kind: MsgWatermark, Watermark: time.Unix(w, 0)})
 		}
 	}
@@ -47,9 +52,9 @@ func recordsUpTo(msgs []Msg, w time.Time, all bool) []execution.Record {
 // equals the join of all input records with event time <= W, emitted watermarks never decrease,
 // and at end of stream the output is the join of the complete inputs.
 func VerifC19JoinConsistency() {
-	L, tch, kind := zzverif.Param("L"), zzverif.Param("TCH"), zzverif.Param("KIND")
-	left := NDWatermarkedScript("l", L, tch, 0)
-	right := NDWatermarkedScript("r", L, tch, 100)
+	L, tch, wj, kind := zzverif.Param("L"), zzverif.Param("TCH"), zzverif.Param("WJ"), zzverif.Param("KIND")
+	left := NDWatermarkedScript("l", L, tch, wj, 0)
+	right := NDWatermarkedScript("r", L, tch, wj, 100)
 	ls, rs := GateJoinInputs(NewScriptSource(left), NewScriptSource(right))
 	node := MakeJoin(kind, ls, rs, 1, 2, 2)
 	sink := &Sink{}
